@@ -386,6 +386,28 @@ pub fn judge_calls(calls: &[Vec<u8>]) -> Eval {
     Eval { key: h64(&keyacc) | 1, transitions: 2 * calls.len() as u64, issues, tags: vec![] }
 }
 
+fn many_templates(ipfix: bool, n: usize) -> Vec<Vec<u8>> {
+    use crate::wire::*;
+    let ids: Vec<u16> = (0..n).map(|k| (256 + k) as u16).collect();
+    let fields = vec![fs(1, 4), fs(7, 2)];
+    let mut calls = vec![];
+    for chunk in ids.chunks(700) {
+        calls.push(if ipfix {
+            ipfix_message(&IpfixMsg::new(chunk.iter().map(|id| IpfixSet::Tpl(vec![IpfixTpl { id: *id, fields: fields.clone() }], 0)).collect()))
+        } else {
+            v9_packet(&V9Pkt::new(vec![V9Set::Tpl(chunk.iter().map(|id| V9Tpl { id: *id, fields: fields.clone() }).collect(), 0)]))
+        });
+    }
+    for chunk in ids.chunks(1500) {
+        calls.push(if ipfix {
+            ipfix_message(&IpfixMsg::new(chunk.iter().map(|id| IpfixSet::Data(*id, crate::alphabet::rec_value(*id as usize, 1, 6))).collect()))
+        } else {
+            v9_packet(&V9Pkt::new(chunk.iter().map(|id| V9Set::Data(*id, crate::alphabet::rec_value(*id as usize, 1, 6))).collect()))
+        });
+    }
+    calls
+}
+
 fn fam_space(f: Arc<dyn Family>) -> Box<dyn Space> {
     let f2 = f.clone();
     space(
@@ -426,6 +448,17 @@ pub fn spaces(tier: &str) -> Vec<Box<dyn Space>> {
                 b[2 + (i / 256) as usize] = (i % 256) as u8;
                 json!({"calls": [hex(&b)]})
             },
+        ));
+    }
+    // many cached templates: N distinct ids defined, then data for EVERY id; two parsers must serialise identically
+    {
+        let sizes: Vec<usize> = if thorough { vec![3, 64, 65, 257, 1024, 1025, 1500, 4097, 9000] } else { vec![3, 65, 257, 1025, 1500, 4097] };
+        let s2 = sizes.clone();
+        v.push(space(
+            "many-templates-then-data-for-every-id (V9 and IPFIX)",
+            sizes.len() as u64 * 2,
+            move |i| judge_calls(&many_templates(i % 2 == 1, sizes[(i / 2) as usize])),
+            move |i| json!({"protocol": if i % 2 == 1 { "ipfix" } else { "v9" }, "distinct_template_ids": s2[(i / 2) as usize], "shape": "template packets (700 ids each), then data packets (one 6-byte record per id)"}),
         ));
     }
     // error elements with arbitrary remaining bytes; accepted deviants
